@@ -52,7 +52,7 @@ func TestC06_Retain(t *testing.T) {
 	rec.RequireShare("nlp-adds", 0.01)
 	p := nlp.NewQueryProcessor()
 	rapid.Check(t, func(t *rapid.T) {
-		cmds, cls := gen.DB(t, gen.CmdOpts{Platforms: true, Unicode: rapid.IntRange(0, 3).Draw(t, "u") == 0}, []int{0, 1, 3, 10, 1, 1})
+		cmds, cls := gen.DB(t, gen.CmdOpts{Platforms: true, Unicode: rapid.IntRange(0, 3).Draw(t, "u") == 0, Sized: true, Long: true}, []int{0, 1, 3, 10, 1, 1})
 		if rapid.Bool().Draw(t, "hint-pack") {
 			// commands named after the tools the NLP stage likes to suggest, so its hints are indexed terms
 			for _, h := range rapid.SliceOfNDistinct(rapid.SampledFrom(c06HintTools), 3, 10, func(s string) string { return s }).Draw(t, "hints") {
